@@ -17,6 +17,31 @@ pub fn emit(event: String) {
     EVENTS.with(|e| e.borrow_mut().push(event));
 }
 
+thread_local! {
+    static AT_EVENT: RefCell<Option<Box<dyn FnMut(i32)>>> = const { RefCell::new(None) };
+}
+
+/// Installs (or removes) a callback that `HttpServer::requests` invokes before it handles each
+/// element of the batch returned by `epoll_wait`, with the descriptor of that element. A
+/// single-threaded test harness uses it to let a peer act between two sub-steps of one call.
+pub fn set_at_event(callback: Option<Box<dyn FnMut(i32)>>) {
+    AT_EVENT.with(|c| *c.borrow_mut() = callback);
+}
+
+/// Invokes the installed callback, if any.
+pub fn at_event(fd: i32) {
+    let taken = AT_EVENT.with(|c| c.borrow_mut().take());
+    if let Some(mut callback) = taken {
+        callback(fd);
+        AT_EVENT.with(|c| {
+            let mut slot = c.borrow_mut();
+            if slot.is_none() {
+                *slot = Some(callback);
+            }
+        });
+    }
+}
+
 /// Removes and returns all events emitted on the calling thread so far.
 pub fn drain() -> Vec<String> {
     EVENTS.with(|e| std::mem::take(&mut *e.borrow_mut()))
